@@ -284,10 +284,113 @@ func enforcement(res *ev.Result, shs []shape) {
 	res.DistinctAdd("nontrivial", n)
 }
 
+// emissionSweep: every RTU frame size the library agrees to emit, not only the boundary shapes - every request the
+// constructors accept over the whole quantity / count axis (including the counts above the specification's limits that
+// the constructors currently let through: those frames are emitted too) and every response payload length 1..255; each
+// must end with the reference CRC of everything before it, low byte first.
+func emissionSweep(res *ev.Result) {
+	n := int64(0)
+	pat := func(k int) []byte {
+		b := make([]byte, k)
+		for i := range b {
+			b[i] = byte(i*29 + 3)
+		}
+		return b
+	}
+	check := func(name string, b []byte) {
+		n++
+		if len(b) < 4 {
+			res.Violate(ev.Violation{Check: "emission", Kind: "frame-too-short", Attrs: map[string]any{"shape": name}, Msg: fmt.Sprintf("%s: Bytes() = %s", name, ev.Hex(b)), Case: trailerCase{Shape: name, Frame: fmt.Sprintf("%x", b)}})
+			return
+		}
+		k := len(b)
+		c := spec.CRC(b[:k-2])
+		if b[k-2] != byte(c) || b[k-1] != byte(c>>8) {
+			res.Violate(ev.Violation{Check: "emission", Kind: "bad-trailer", Attrs: map[string]any{"shape": name},
+				Msg: fmt.Sprintf("%s: Bytes() = %s does not end with CRC %02x %02x of the preceding bytes", name, ev.Hex(b), byte(c), byte(c>>8)), Case: trailerCase{Shape: name, Frame: fmt.Sprintf("%x", b)}})
+		}
+	}
+	try := func(name string, r spec.Req) {
+		var q packet.Request
+		var err error
+		func() {
+			defer func() {
+				if rec := recover(); rec != nil {
+					err = fmt.Errorf("panic: %v", rec)
+				}
+			}()
+			q, err = lib.NewRequest(r, true)
+			if err == nil && !lib.IsNil(q) {
+				check(name, q.Bytes())
+			}
+		}()
+	}
+	for _, unit := range []uint8{0, 1, 247, 255} {
+		for _, fc := range []uint8{1, 2, 3, 4} {
+			for _, q := range []uint16{1, 2, 7, 8, 9, 124, 125, 126, 1999, 2000, 2001} {
+				try(fmt.Sprintf("sweep-req-fc%d-q%d", fc, q), spec.Req{FC: fc, Unit: unit, Addr: 0xFFF0, Qty: q})
+			}
+		}
+	}
+	for q := 1; q <= 1970; q++ {
+		try(fmt.Sprintf("sweep-req-fc15-q%d", q), spec.Req{FC: 15, Unit: 7, Addr: 3, Qty: uint16(q), Data: pat((q + 7) / 8)})
+	}
+	for q := 1; q <= 127; q++ {
+		try(fmt.Sprintf("sweep-req-fc16-q%d", q), spec.Req{FC: 16, Unit: 8, Addr: 1, Qty: uint16(q), Data: pat(2 * q)})
+		for _, rq := range []uint16{1, 125} {
+			try(fmt.Sprintf("sweep-req-fc23-r%d-w%d", rq, q), spec.Req{FC: 23, Unit: 10, Addr: 3, Qty: rq, WAddr: 14, WQty: uint16(q), Data: pat(2 * q)})
+		}
+	}
+	for bl := 1; bl <= 255; bl++ {
+		d := pat(bl)
+		safe := func(name string, f func() []byte) {
+			defer func() {
+				if rec := recover(); rec != nil {
+					res.Violate(ev.Violation{Check: "emission", Kind: "encoder-panic", Attrs: map[string]any{"shape": name}, Msg: fmt.Sprintf("%s: Bytes() panicked: %v", name, rec), Case: trailerCase{Shape: name}})
+				}
+			}()
+			check(name, f())
+		}
+		if bl <= 250 {
+			safe(fmt.Sprintf("sweep-resp-fc1-b%d", bl), func() []byte {
+				return packet.ReadCoilsResponseRTU{ReadCoilsResponse: packet.ReadCoilsResponse{UnitID: 1, CoilsByteLength: uint8(bl), Data: d}}.Bytes()
+			})
+			safe(fmt.Sprintf("sweep-resp-fc2-b%d", bl), func() []byte {
+				return packet.ReadDiscreteInputsResponseRTU{ReadDiscreteInputsResponse: packet.ReadDiscreteInputsResponse{UnitID: 2, InputsByteLength: uint8(bl), Data: d}}.Bytes()
+			})
+			if bl%2 == 0 {
+				safe(fmt.Sprintf("sweep-resp-fc3-b%d", bl), func() []byte {
+					return packet.ReadHoldingRegistersResponseRTU{ReadHoldingRegistersResponse: packet.ReadHoldingRegistersResponse{UnitID: 3, RegisterByteLen: uint8(bl), Data: d}}.Bytes()
+				})
+				safe(fmt.Sprintf("sweep-resp-fc4-b%d", bl), func() []byte {
+					return packet.ReadInputRegistersResponseRTU{ReadInputRegistersResponse: packet.ReadInputRegistersResponse{UnitID: 4, RegisterByteLen: uint8(bl), Data: d}}.Bytes()
+				})
+				safe(fmt.Sprintf("sweep-resp-fc23-b%d", bl), func() []byte {
+					return packet.ReadWriteMultipleRegistersResponseRTU{ReadWriteMultipleRegistersResponse: packet.ReadWriteMultipleRegistersResponse{UnitID: 10, RegisterByteLen: uint8(bl), Data: d}}.Bytes()
+				})
+			}
+		}
+		if bl <= 120 {
+			safe(fmt.Sprintf("sweep-resp-fc17-id%d", bl), func() []byte {
+				return packet.ReadServerIDResponseRTU{ReadServerIDResponse: packet.ReadServerIDResponse{UnitID: 9, Status: 0xFF, ServerID: d, AdditionalData: pat(bl % 7)}}.Bytes()
+			})
+		}
+	}
+	for fc := 0; fc < 256; fc++ {
+		for code := 0; code < 256; code++ {
+			check(fmt.Sprintf("sweep-exception-fc%d-c%d", fc, code), packet.ErrorResponseRTU{UnitID: uint8(fc ^ code), Function: uint8(fc), Code: uint8(code)}.Bytes())
+		}
+	}
+	res.Add("emission_frames", n)
+	res.Add("evaluations", n)
+	res.Axis("emitted RTU frames: request sizes over the whole accepted count axis, response payload lengths 1..250, all 256x256 exceptions", "full", n)
+}
+
 func run(tier string, shard, nsh int, res *ev.Result) {
 	if err := spec.SelfCheck(); err != nil {
 		panic(err)
 	}
+	emissionSweep(res)
 	stateSearch(res)
 	res.Axis("crc state x input byte (transitions executed on packet.CRC16)", "full", 1<<24)
 	foldCheck(res, 600)
